@@ -551,6 +551,30 @@ fn run_partition(acc: &mut Acc, data: &[Tracked], p: usize, lay: Option<&Layout>
     true
 }
 
+/// a 48-byte element ordered by `key` only
+#[derive(Clone, Copy, Debug)]
+#[allow(dead_code)]
+struct Wide {
+    key: i64,
+    pad: [u64; 5],
+}
+impl PartialEq for Wide {
+    fn eq(&self, o: &Self) -> bool {
+        self.key == o.key
+    }
+}
+impl Eq for Wide {}
+impl PartialOrd for Wide {
+    fn partial_cmp(&self, o: &Self) -> Option<std::cmp::Ordering> {
+        Some(self.key.cmp(&o.key))
+    }
+}
+impl Ord for Wide {
+    fn cmp(&self, o: &Self) -> std::cmp::Ordering {
+        self.key.cmp(&o.key)
+    }
+}
+
 /// post-condition of partition_mut on plain values (after-state given as a Vec)
 fn judge_partition_plain<T: Ord + Copy + std::fmt::Debug>(acc: &mut Acc, tname: &str, data: &[T], p: usize, res: Result<(usize, Vec<T>), String>) {
     let fail = |acc: &mut Acc, monitor: &str, what: String| {
@@ -701,6 +725,30 @@ fn main() {
             ));
             acc.sample(|| J::obj(vec![("n", J::u(n)), ("keys", J::A(pat.iter().take(12).map(|&x| J::I(x as i128)).collect()))]));
         });
+        // an empty request is in range for every array, the empty one included: an empty map, no panic
+        r.section("empty_requests", 12, |k, _rng, acc| {
+            let n = k as usize;
+            let data: Vec<Tracked> = (0..n).map(|i| Tracked { key: (i % 3) as u8, id: i as u16 }).collect();
+            for lay in [None, Some(lay1(2, 1, 1)), Some(lay1(-1, 0, 1))] {
+                acc.eval();
+                let none: Array1<usize> = Array1::from(Vec::<usize>::new());
+                let res = match &lay {
+                    None => {
+                        let mut a = Array1::from(data.clone());
+                        catch(|| a.get_many_from_sorted_mut(&none).len())
+                    }
+                    Some(l) => {
+                        let mut e = Embedded::new(&[n], &data, l.clone());
+                        let mut v = e.view_mut().into_dimensionality::<Ix1>().unwrap();
+                        catch(|| v.get_many_from_sorted_mut(&none).len())
+                    }
+                };
+                if res != Ok(0) {
+                    acc.violation("bulk_keys", None, J::obj(vec![("op", J::s("get_many_from_sorted_mut(empty request)")), ("n", J::u(n)), ("what", J::s(format!("expected an empty map, got {:?}", res)))]));
+                }
+                acc.exact_nontrivial += 1;
+            }
+        });
         // plain integer element types through the same entry points
         r.section("random_ints", r.args.n(10_000, 300_000), |_k, rng, acc| {
             let n = 1 + rng.below(60);
@@ -784,7 +832,55 @@ fn main() {
             let vals: Vec<i64> = (0..n).map(|_| rng.range(0, alpha)).collect();
             let p = rng.below(n);
             let lay = random_layout1(rng);
-            match k % 5 {
+            match k % 8 {
+                5 => {
+                    // an element type wider than a cache line fragment (48 bytes), ordered by its key only
+                    let data: Vec<Wide> = vals.iter().enumerate().map(|(i, &v)| Wide { key: v, pad: [i as u64; 5] }).collect();
+                    // plain owned array, or a strided / reversed view of a larger buffer built by hand
+                    // (Wide is not an `Elem`, so the zoo cannot embed it)
+                    let s_abs = lay.as_ref().map(|l| l.step[0].unsigned_abs()).unwrap_or(1);
+                    let rev = lay.as_ref().map(|l| l.step[0] < 0).unwrap_or(false);
+                    let mut buf: Vec<Wide> = (0..((n - 1) * s_abs + 3)).map(|i| Wide { key: -77, pad: [i as u64; 5] }).collect();
+                    for (i, w) in data.iter().enumerate() {
+                        buf[1 + i * s_abs] = *w;
+                    }
+                    let mut parent = Array1::from(buf);
+                    let mut v = parent.slice_mut(ndarray::s![1..(n - 1) * s_abs + 2;s_abs as isize]);
+                    if rev {
+                        v.invert_axis(Axis(0));
+                    }
+                    let logical: Vec<i64> = v.iter().map(|w| w.key).collect();
+                    acc.eval();
+                    let res = catch(|| v.partition_mut(p)).map(|k| (k, v.iter().map(|w| w.key).collect::<Vec<i64>>()));
+                    judge_partition_plain(acc, "Wide (48 bytes)", &logical, p, res);
+                    if parent.iter().enumerate().any(|(i, w)| (i < 1 || (i - 1) % s_abs != 0 || (i - 1) / s_abs >= n) && w.key != -77) {
+                        acc.violation("multiset", None, J::obj(vec![("op", J::s("partition_mut on a strided view of 48-byte elements")), ("what", J::s("a cell outside the view changed"))]));
+                    }
+                }
+                6 => {
+                    // shared storage: an ArcArray with a second live handle (copy-on-write on the first mutation)
+                    let data: Vec<i32> = vals.iter().map(|&v| v as i32).collect();
+                    let mut a = Array1::from(data.clone()).into_shared();
+                    let keep = a.clone();
+                    acc.eval();
+                    let res = catch(|| a.partition_mut(p)).map(|k| (k, a.to_vec()));
+                    judge_partition_plain(acc, "i32 in a shared ArcArray", &data, p, res);
+                    if keep.to_vec() != data {
+                        acc.violation("multiset", None, J::obj(vec![("op", J::s("partition_mut on a shared ArcArray")), ("what", J::s("the other handle changed"))]));
+                    }
+                }
+                7 => {
+                    // copy-on-write array borrowing a view
+                    let data: Vec<i32> = vals.iter().map(|&v| v as i32).collect();
+                    let owner = Array1::from(data.clone());
+                    let mut c = ndarray::CowArray::from(owner.view());
+                    acc.eval();
+                    let res = catch(|| c.partition_mut(p)).map(|k| (k, c.to_vec()));
+                    judge_partition_plain(acc, "i32 in a CowArray borrowing a view", &data, p, res);
+                    if owner.to_vec() != data {
+                        acc.violation("multiset", None, J::obj(vec![("op", J::s("partition_mut on a borrowed CowArray")), ("what", J::s("the lender changed"))]));
+                    }
+                }
                 0 => part_generic::<i32>(acc, &vals.iter().map(|&v| v as i32 - 2).collect::<Vec<_>>(), p, lay.as_ref(), "i32"),
                 1 => part_generic::<N64>(acc, &vals.iter().map(|&v| n64(v as f64 * 0.5)).collect::<Vec<_>>(), p, lay.as_ref(), "N64"),
                 2 => part_generic::<u8>(acc, &vals.iter().map(|&v| v as u8).collect::<Vec<_>>(), p, lay.as_ref(), "u8"),
@@ -813,8 +909,8 @@ fn main() {
                     }
                 }
             }
-            acc.nontrivial(h64(&(k % 5, &vals, p, &lay)));
-            acc.count(&format!("elem_kind_{}", k % 5));
+            acc.nontrivial(h64(&(k % 8, &vals, p, &lay)));
+            acc.count(&format!("elem_kind_{}", k % 8));
         });
         r.section("part_random", r.args.n(30_000, 1_000_000), |_k, rng, acc| {
             let n = if rng.chance(0.1) { 1 + rng.below(500) } else { 1 + rng.below(50) };
